@@ -77,6 +77,11 @@ def toml_config(desc):
     return tomlkit.dumps(doc)
 
 
+class StepFailed(Exception):
+    """A naunet command reported failure through its exit status (an outcome of the system under
+    test, not a problem of the simulator)."""
+
+
 class Session:
     def __init__(self, desc, workdir):
         self.N = seams.install()
@@ -149,6 +154,13 @@ class Session:
                 self.net.remove_reaction(st["i"])
             elif kind == "set_allowed":
                 self.net.allowed_species = list(st["names"])
+            elif kind == "set_eb":
+                objs = list(self.net.reactants | self.net.products)
+                for r in self.net.reaction_list:
+                    objs += r.reactants + r.products
+                for sp in objs:
+                    if sp.name in st["values"]:
+                        sp.binding_energy = st["values"][sp.name]
             elif kind == "touch":
                 # read-only inspection, as in a notebook
                 _ = [s.alias for s in self.net.species]
@@ -207,7 +219,7 @@ class Session:
             args = "--force" + (" --with-pattern" if st.get("pattern") else "")
             rc = tester.execute(args)
             if rc not in (0, None):
-                raise RuntimeError(f"naunet render exited with {rc}: {tester.io.fetch_error()[-400:]}")
+                raise StepFailed(f"naunet render exited with {rc}: {tester.io.fetch_error()[-400:]}")
             return artefact(self.dir)
         finally:
             os.chdir(cwd)
